@@ -13,6 +13,22 @@ from AegeanTools import BANE                         # noqa: E402
 
 cfg = json.loads(sys.argv[3])
 os.setsid()
+created = []
+_RealSM = BANE.SharedMemory
+
+
+class _RecordingSM(_RealSM):
+    """Only records the names this run creates, so that the parent looks at those and at nothing else in /dev/shm."""
+
+    def __init__(self, name=None, create=False, size=0):
+        super().__init__(name=name, create=create, size=size)
+        if create:
+            created.append(self.name)
+            with open(sys.argv[2] + ".segments", "a") as f:
+                f.write(self.name + "\n")
+
+
+BANE.SharedMemory = _RecordingSM
 bkg, rms = BANE.filter_image(sys.argv[1], None, step_size=tuple(cfg["grid"]), box_size=tuple(cfg["box"]),
                              cores=cfg["cores"], mask=cfg["mask"], nslice=cfg["nslice"], cube_index=cfg["cube_index"])
 np.savez(sys.argv[2], bkg=bkg, rms=rms)
